@@ -249,3 +249,21 @@ pub fn shim_usize_to_le_bytes(x: usize) -> (r: [u8; 8])
 }
 
 } // verus!
+
+// ---- rand_core::OsRng --------------------------------------------------------------------------
+verus! {
+
+/// R2 shim for `OsRng.try_fill_bytes(buf).expect("failed to fill random bytes")`: THE source of the uninterpreted fact
+/// rng_drawn (C11): the operating-system generator filled exactly these bytes (a failure of the OS generator panics, as
+/// in the original expression). Statistical quality / independence across calls is assumption A-RNG.
+#[verifier::external_body]
+pub fn shim_osrng_fill(buf: &mut [u8])
+    ensures
+        final(buf)@.len() == old(buf)@.len(),
+        crate::verif_types::rng_drawn(final(buf)@),
+{
+    use rand_core::{OsRng, TryRngCore};
+    OsRng.try_fill_bytes(buf).expect("failed to fill random bytes");
+}
+
+} // verus!
